@@ -1361,6 +1361,10 @@ class Namespace:
     def get(self, a):
         if a in self.table:
             return self.table[a]
+        # a contract's own numpy namespace overrides what it needs; everything else falls back to the default scalar shims (so that a
+        # harmless new np.sqrt / np.real in the source does not leave the subset)
+        if self.name in ("np", "numpy") and a in _NP and _NP[a] is not None:
+            return _NP[a]
         raise SymExError(f"{self.name}.{a} is not modelled")
 
 
